@@ -593,6 +593,8 @@ func stateRules(c *Ctx) {
 		scannerLimit(c, g, short1)
 		// ---- an output file opened for overwriting without being truncated
 		openWithoutTruncate(c, g, short1)
+		// ---- a memo that hands out its own lists
+		memoAlias(c, g, short1)
 	}
 	// parsers that link features to a local Sequence (shared by C01, C14, C15)
 	switch c.Prop {
@@ -3626,6 +3628,15 @@ func memoKeys(c *Ctx, g *ssa.Function, tb *TermBuilder, short1 string, requireLo
 				}
 			}
 		}
+		// what is remembered is also a function of the conditions under which it is remembered: a fact stored only
+		// after checks that depend on other arguments ("these letters are valid" - for the type that was asked) is
+		// computed from those arguments too
+		if pg == g {
+			for _, at := range pathCond(tb, g.Blocks[0], i.Block()).atoms() {
+				l, _ := argLeaves(at.Atom)
+				vl = append(vl, l...)
+			}
+		}
 		// a parameter the function writes THROUGH (a receiver it fills, an out-parameter) is an output: what
 		// is read back from it is what this call put there, not a second input the key would have to cover
 		outParam := map[string]bool{}
@@ -3806,5 +3817,88 @@ func openWithoutTruncate(c *Ctx, g *ssa.Function, short1 string) {
 			return
 		}
 		c.bad("STATE", "open-without-truncate:"+short1, cl.Pos(), fmt.Sprintf("%s opens its output with os.OpenFile flags %#x: created if missing, written from the start, but not truncated: when the file already holds a longer document, its old tail stays behind the new one and is read back with it", short1, v))
+	})
+}
+
+// memoAlias: on a hit the function hands its caller the very list (or map) it keeps in a package-level memo:
+// every caller that gets it shares it with all the others and with the memo, so one caller's edit (sorting the
+// variants, filtering them in place) changes what later calls return.
+func memoAlias(c *Ctx, g *ssa.Function, short1 string) {
+	mutableContainer := func(t types.Type) bool {
+		switch t.Underlying().(type) {
+		case *types.Slice, *types.Map:
+			return true
+		}
+		return false
+	}
+	// the same function also stores into that memo (otherwise it is a read-only table)
+	storesInto := map[*ssa.Global]bool{}
+	eachInstr(g, func(i ssa.Instruction) {
+		switch x := i.(type) {
+		case *ssa.MapUpdate:
+			if gl := globalRoot(x.Map); gl != nil {
+				storesInto[gl] = true
+			}
+		case *ssa.Call:
+			if n := calleeName(x); (n == "(*sync.Map).Store" || n == "(*sync.Map).LoadOrStore") && len(x.Call.Args) > 0 {
+				if gl := globalRoot(x.Call.Args[0]); gl != nil {
+					storesInto[gl] = true
+				}
+			}
+		}
+	})
+	if len(storesInto) == 0 {
+		return
+	}
+	eachInstr(g, func(i ssa.Instruction) {
+		var found ssa.Value
+		var gl *ssa.Global
+		switch x := i.(type) {
+		case *ssa.Lookup:
+			if gl = globalRoot(x.X); gl != nil && storesInto[gl] {
+				found = x
+			}
+		case *ssa.Call:
+			if n := calleeName(x); (n == "(*sync.Map).Load" || n == "(*sync.Map).LoadOrStore") && len(x.Call.Args) > 0 {
+				if gl = globalRoot(x.Call.Args[0]); gl != nil && storesInto[gl] {
+					found = x
+				}
+			}
+		}
+		if found == nil {
+			return
+		}
+		seen := map[ssa.Value]bool{}
+		var direct func(v ssa.Value, d int) *ssa.Return
+		direct = func(v ssa.Value, d int) *ssa.Return {
+			if seen[v] || v.Referrers() == nil || d > 6 {
+				return nil
+			}
+			seen[v] = true
+			for _, r := range *v.Referrers() {
+				switch z := r.(type) {
+				case *ssa.Return:
+					for _, res := range z.Results {
+						if res == v && mutableContainer(v.Type()) {
+							return z
+						}
+					}
+				case *ssa.Extract:
+					if z.Index == 0 {
+						if ret := direct(z, d+1); ret != nil {
+							return ret
+						}
+					}
+				case *ssa.TypeAssert, *ssa.Phi, *ssa.ChangeType:
+					if ret := direct(z.(ssa.Value), d+1); ret != nil {
+						return ret
+					}
+				}
+			}
+			return nil
+		}
+		if ret := direct(found, 0); ret != nil {
+			c.bad("STATE", "memo-alias:"+short1+"->"+gl.Name(), ret.Pos(), fmt.Sprintf("%s returns the list it keeps in package-level %s as it is: every caller that asks for the same key gets the same backing array, so a caller that edits its result (sorts it, filters it in place) changes what later callers receive", short1, gl.Name()))
+		}
 	})
 }
